@@ -46,23 +46,60 @@ SHAPES = {
     "decoupled_source": ([("src", ["a"]), ("nodep_src", ["b"]), ("fn", ["a", "b"], ["c"]), ("sink", ["c"])], ["pipe", "pipe", "pipe"]),
     "two_nodes": ([("src", ["a"]), ("sink", ["a"])], [("fifo", 1)]),
     "call_then_fn": ([("src", ["a"]), ("call", ["a"], ["r"]), ("fn", ["a", "r"], ["s"]), ("sink", ["s"])], [("fifo", 2), "pipe", ("fifo", 2)]),
+    # the same field name re-generated with another width (a stage that narrows / widens a field it reads)
+    "narrowing_overwrite": ([("src", ["a"], {"a": 3}), ("fn", ["a"], ["a"], {"a": 1}), ("sink", ["a"])], ["pipe", "pipe"]),
+    "widening_overwrite_fifo": ([("src", ["a", "b"], {"a": 1}), ("fn", ["a"], ["a"], {"a": 3}), ("fn", ["a", "b"], ["c"]), ("sink", ["a", "c"])], [("fifo", 2), "pipe", "pipe"]),
     "five_nodes": ([("src", ["a"]), ("fn", ["a"], ["b"]), ("fn", ["a", "b"], ["c"]), ("fn", ["c"], ["d"]), ("sink", ["d"])], ["pipe", "pipe", ("fifo", 2), "pipe"]),
 }
-QUICK = ["src_fn_sink", "passthrough_fields", "fifo_links", "mixed_links", "called_method", "decoupled_source"]
+QUICK = ["src_fn_sink", "passthrough_fields", "fifo_links", "mixed_links", "called_method", "decoupled_source", "narrowing_overwrite", "widening_overwrite_fifo"]
 
 
 def configs(tier):
     return [{"shape": s} for s in (QUICK if tier == "quick" else SHAPES)]
 
 
-def lay(fields):
-    return [(f, unsigned(W)) for f in fields]
+def lay(fields, widths=None):
+    return [(f, unsigned((widths or {}).get(f, W))) for f in fields]
 
 
-def _stage_body(ins, outs):
+def gen_of(node):
+    return {"src": node[1], "nodep_src": node[1], "sink": [], "fn": node[2] if node[0] == "fn" else [], "call": node[2] if node[0] == "call" else []}[node[0]]
+
+
+def req_of(node):
+    return {"src": [], "nodep_src": [], "sink": node[1], "fn": node[1] if node[0] == "fn" else [], "call": node[1] if node[0] == "call" else []}[node[0]]
+
+
+def out_widths(node):
+    """declared widths of the fields a node generates (default W)"""
+    decl = next((x for x in node[1:] if isinstance(x, dict)), {})
+    return {f: decl.get(f, W) for f in gen_of(node)}
+
+
+def spec_layouts(nodes):
+    """Specification-level liveness, from the shape description only: for every link i (node i -> i+1) the live fields
+    with the width given by their most recent producer; for every node the widths of the fields it requires."""
+    n = len(nodes)
+    cur = {}  # field -> width after node i
+    after = []
+    seen_in = []
+    for node in nodes:
+        seen_in.append({f: cur[f] for f in req_of(node)})
+        cur = {**cur, **out_widths(node)}
+        after.append(dict(cur))
+    links = []
+    for i in range(n - 1):
+        need = set()
+        for k in range(n - 1, i, -1):
+            need = (need - set(gen_of(nodes[k]))) | set(req_of(nodes[k]))
+        links.append({f: after[i][f] for f in need})
+    return links, seen_in
+
+
+def _stage_body(ins, outs, ow):
     def body(arg):
         s = sum((arg[k] for k in ins), 0) + 1
-        return {o: (s + j)[:W] for j, o in enumerate(outs)} if outs else None
+        return {o: (s + j)[: ow[o]] for j, o in enumerate(outs)} if outs else None
 
     return body
 
@@ -81,11 +118,12 @@ class PipeDesign(Elaboratable):
     def __init__(self, shape):
         self.nodes, self.links = SHAPES[shape]
         self.ext, self.ready, self.called_ready, self.called = {}, {}, {}, {}
+        self.spec_links, self.spec_in = spec_layouts(self.nodes)
         for i, node in enumerate(self.nodes):
             if node[0] in ("src", "nodep_src"):
-                self.ext[i] = Method(name=f"src{i}", i=lay(node[1]))
+                self.ext[i] = Method(name=f"src{i}", i=lay(node[1], out_widths(node)))
             elif node[0] == "sink":
-                self.ext[i] = Method(name=f"sink{i}", o=lay(node[1]))
+                self.ext[i] = Method(name=f"sink{i}", o=lay(node[1], self.spec_in[i]))
             elif node[0] == "fn":
                 self.ready[i] = Signal(name=f"rdy{i}")
             elif node[0] == "call":
@@ -104,9 +142,9 @@ class PipeDesign(Elaboratable):
             elif kind == "nodep_src":
                 p.add_external(self.ext[i], no_dependency=True)
             elif kind == "fn":
-                p.stage(m, o=lay(node[2]), i=lay(node[1]), ready=self.ready[i])(_stage_body(node[1], node[2]))
+                p.stage(m, o=lay(node[2], out_widths(node)), i=lay(node[1], self.spec_in[i]), ready=self.ready[i])(_stage_body(node[1], node[2], out_widths(node)))
             elif kind == "call":
-                meth = Method(name=f"callee{i}", i=lay(node[1]), o=lay(node[2]))
+                meth = Method(name=f"callee{i}", i=lay(node[1], self.spec_in[i]), o=lay(node[2], out_widths(node)))
                 self.called[i] = (meth, self.called_ready[i])
                 def_method(m, meth, ready=self.called_ready[i])(_callee_body(node[1], node[2]))
                 p.call_method(meth)
@@ -166,6 +204,11 @@ def run(cfg, ctx):
     nodep = {i: make_rep(named[f"{i}_nodep"]) for i in range(n) if nodes[i][0] == "nodep_src"}
     pre_inv = [c.wf(False) for c in conns if isinstance(c, BasicFifoRep)]
     P = lambda name, post: ctx.prove(name, post, pre=pre_inv, hw=hw)
+    # the connector between node j and j+1 carries exactly the live fields, each with the shape its most recent producer declared
+    for j in range(n - 1):
+        got = {name: f.width for name, f in lay_of[j]}
+        ctx.structural(f"link{j}.layout_is_live_fields_with_producer_shapes", got == d2.spec_links[j], "finite evaluation (layout of the elaborated connector against specification-level liveness)",
+                       f"connector carries {got}, specification {d2.spec_links[j]}")
     ctx.prove("init.wf", ts.at_init(z3.And(*pre_inv, *[c.view().n == 0 for c in conns])))
     for j, c in enumerate(conns):
         if isinstance(c, BasicFifoRep):
@@ -230,11 +273,14 @@ def run(cfg, ctx):
             for k in gen_fields:
                 genv[k] = field(q.e[0], nl, k)
         elif kind == "fn":
-            s = z3.BitVecVal(1, W)
+            SW = 8  # wide enough for the sums of these shapes; results are truncated to the declared output width
+            s = z3.BitVecVal(1, SW)
             for k in node[1]:
-                s = s + field(head, lay_of[i - 1], k)
+                x = field(head, lay_of[i - 1], k)
+                s = s + z3.ZeroExt(SW - x.size(), x)
+            ow = out_widths(node)
             for jx, k in enumerate(gen_fields):
-                genv[k] = s + jx
+                genv[k] = z3.Extract(ow[k] - 1, 0, s + jx)
         elif kind == "call":
             meth, _ = d2.called[i]
             for k in gen_fields:
